@@ -277,6 +277,28 @@ fn main() {
                                     _ => break,
                                 }
                             }
+                            // adaptor structs (Map<I, F>, ...): look through their generic arguments for fn items / closures
+                            let mut stack = vec![(t, 0usize)];
+                            while let Some((ty2, depth)) = stack.pop() {
+                                if let TyKind::RigidTy(RigidTy::Adt(_, aargs)) = ty2.kind() {
+                                    if depth < 3 {
+                                        for a in aargs.0.iter() { if let GenericArgKind::Type(t3) = a { stack.push((*t3, depth + 1)); } }
+                                    }
+                                }
+                                if depth == 0 { continue; }
+                                if let TyKind::RigidTy(RigidTy::Closure(def, gargs)) = ty2.kind() {
+                                    if let Ok(callee) = Instance::resolve_closure(def, &gargs, rustc_public::ty::ClosureKind::FnMut).or_else(|_| Instance::resolve_closure(def, &gargs, rustc_public::ty::ClosureKind::FnOnce)) {
+                                        reified.insert(ty_key(&ty2), json!({"key": callee.mangled_name(), "name": callee.name()}));
+                                        if seen.insert(callee.mangled_name()) { queue.push_back(callee); }
+                                    }
+                                }
+                                if let TyKind::RigidTy(RigidTy::FnDef(def, gargs)) = ty2.kind() {
+                                    if let Ok(callee) = Instance::resolve(def, &gargs) {
+                                        reified.insert(ty_key(&ty2), json!({"key": callee.mangled_name(), "name": callee.name(), "nested": true}));
+                                        if !matches!(callee.kind, InstanceKind::Virtual{..}) && seen.insert(callee.mangled_name()) { queue.push_back(callee); }
+                                    }
+                                }
+                            }
                             if let TyKind::RigidTy(RigidTy::Closure(def, gargs)) = t.kind() {
                                 if let Ok(callee) = Instance::resolve_closure(def, &gargs, rustc_public::ty::ClosureKind::FnMut).or_else(|_| Instance::resolve_closure(def, &gargs, rustc_public::ty::ClosureKind::FnOnce)) {
                                     reified.insert(ty_key(&t), json!({"key": callee.mangled_name(), "name": callee.name()}));
